@@ -16,9 +16,19 @@ if (cd harness && cargo build --profile fast > $T/build-fast.log 2>&1); then
 else
   echo "INCONCLUSIVE: fast build failed" >&2; tail -20 $T/build-fast.log >&2; rm -f $T/$ID-fast.json; [ $rc -eq 0 ] && rc=2
 fi
-python3 - "$ID" $T/$ID-checked.json $T/$ID-fast.json <<'PY'
+# coverage-guided stage (C01..C05): libFuzzer + ASan on fuzz/gc with this property's oracle in the target
+rm -f $T/$ID-fuzz.json
+if [ "$ID" != C06 ]; then
+  if cargo +nightly fuzz build --fuzz-dir /verif/fuzz gc > $T/build-fuzz-gc.log 2>&1; then
+    FUZZ_RUNS="${FUZZ_RUNS:-30000}" ./checks.d/fuzz-stage.sh gc "$ID" "${VERIF_SEED:-20260926}" $T/$ID-fuzz.json; c=$?
+    [ $c -eq 1 ] && rc=1; [ $c -ge 2 ] && [ $rc -eq 0 ] && rc=2
+  else
+    echo "INCONCLUSIVE: cargo fuzz build failed" >&2; tail -20 $T/build-fuzz-gc.log >&2; [ $rc -eq 0 ] && rc=2
+  fi
+fi
+python3 - "$ID" $T/$ID-checked.json $T/$ID-fast.json $T/$ID-fuzz.json <<'PY'
 import json, sys
-i, a, b = sys.argv[1:4]
+i, a, b, c = sys.argv[1:5]
 try:
     ev = json.load(open(a))
 except Exception:
@@ -33,6 +43,13 @@ try:
     ev['wall_s'] += f['wall_s']
 except Exception:
     ev['coverage']['fast_build_note'] = 'fast build stage did not run'
+try:
+    z = json.load(open(c))
+    ev['coverage']['evaluations'] += z['executed_units']
+    ev['coverage']['engines']['libfuzzer-gc'] = z
+    ev['violations'] = ev.get('violations', 0) + z.get('crashes', 0)
+except Exception:
+    pass
 json.dump(ev, open(f'/verif/evidence/{i}.json', 'w'), indent=1, ensure_ascii=False)
 PY
 exit $rc
